@@ -756,7 +756,13 @@ func (p *Parser) parseGenDecl(
 		lparen = p.pos
 		p.next()
 		for iota := 0; p.token != token.RParen && p.token != token.EOF; iota++ { //nolint:predeclared
+			prev := p.pos
 			list = append(list, fn(keyword, true, iota))
+			if p.pos == prev {
+				// the spec could not be parsed and nothing was consumed
+				// (e.g. "param ( }"), skip the token to make progress.
+				p.next()
+			}
 		}
 		rparen = p.expect(token.RParen)
 		p.expectSemi()
